@@ -567,9 +567,15 @@ def _do(OMD, regs, op):
         return ["val", tok(x)]
 
     def omd_pairs(x):
-        if type(x) is not type(d):
+        if type(x) is not type(d) or x is d:
             return UNREP
-        return ["pairs", [[tok(k), (v if n == "counts" else tok(v))] for k, v in x.items(multi=True)]]
+        r = ["pairs", [[tok(k), (v if n == "counts" else tok(v))] for k, v in x.items(multi=True)]]
+        if op.get("mut"):                 # the result must be an independent object: drive it, then drop it
+            x.add(JUNK, JUNK)
+            x[JUNK] = JUNK
+            x.poplast()
+            x.clear()
+        return r
 
     if n == "add":
         return val(d.add(obj(op["k"]), obj(op["v"]))), spoil
@@ -649,15 +655,24 @@ def _do(OMD, regs, op):
         regs[r] = x
         return ["bool", ok], spoil
     if n == "items":
-        x = [d.items, lambda multi: list(d.iteritems(multi=multi)), d.items][op["how"]](multi=op["multi"])
+        if not op["multi"] and op["how"] == 2:
+            x = d.items()                  # multi defaults to False
+        else:
+            x = [d.items, lambda multi: list(d.iteritems(multi=multi)), d.items][op["how"]](multi=op["multi"])
         spoil.append(x)
         return _c_pairs(x), spoil
     if n == "keys":
-        x = [d.keys, lambda multi: list(d.iterkeys(multi=multi)), d.keys][op["how"]](multi=op["multi"])
+        if not op["multi"] and op["how"] == 2:
+            x = d.keys()
+        else:
+            x = [d.keys, lambda multi: list(d.iterkeys(multi=multi)), d.keys][op["how"]](multi=op["multi"])
         spoil.append(x)
         return ["list", [tok(k) for k in x]], spoil
     if n == "values":
-        x = [d.values, lambda multi: list(d.itervalues(multi=multi)), d.values][op["how"]](multi=op["multi"])
+        if not op["multi"] and op["how"] == 2:
+            x = d.values()
+        else:
+            x = [d.values, lambda multi: list(d.itervalues(multi=multi)), d.values][op["how"]](multi=op["multi"])
         spoil.append(x)
         return ["list", [tok(k) for k in x]], spoil
     if n == "len":
@@ -706,8 +721,12 @@ def _do(OMD, regs, op):
     if n == "inverted":
         return omd_pairs(d.inverted()), spoil
     if n == "sorted":
+        if not op["rev"] and op.get("mut"):
+            return omd_pairs(d.sorted(key=_kf_item(op["f"]))), spoil          # reverse defaults to False
         return omd_pairs(d.sorted(key=_kf_item(op["f"]), reverse=op["rev"])), spoil
     if n == "sortedvalues":
+        if not op["rev"] and op.get("mut"):
+            return omd_pairs(d.sortedvalues(key=_kf_val(op["f"]))), spoil
         return omd_pairs(d.sortedvalues(key=_kf_val(op["f"]), reverse=op["rev"])), spoil
     if n == "repr":
         x = eval(repr(d), {"__builtins__": {"frozenset": frozenset}, type(d).__name__: lambda l: ("ok", l)})
